@@ -254,7 +254,9 @@ def run_c14_bmc(ck, tier, K=2):
         # deeper history on a smaller command menu first (the solver's work grows with menu x depth)
         _run_c14_bmc(ck, tier, K, 5, ['set', 'delete'], 'deep')
         _run_c14_bmc(ck, tier, K, 4, ['set', 'get', 'delete', 'flush'], 'mid')
-    _run_c14_bmc(ck, tier, K, 3, ['set', 'get', 'delete', 'flush', 'append'] if tier == 'quick' else ['set', 'get', 'delete', 'flush', 'append', 'increment', 'add', 'replace'], 'wide')
+    _run_c14_bmc(ck, tier, K, 3, ['set', 'get', 'delete', 'flush', 'append'], 'wide')
+    if tier != 'quick':
+        _run_c14_bmc(ck, tier, K, 3, ['set', 'delete', 'increment', 'add', 'replace'], 'wide2')
 
 
 def _run_c14_bmc(ck, tier, K, k, cmds, tag):
